@@ -29,7 +29,7 @@ def base_constants():
         "MaxDo": 3, "MaxSteps": 4, "Limits": {2, 100},
         "InitTreesH": tlc.Sub("MCInitTreesH1"),
         "LeafKinds": {"W", "CF", "CD", "MV"},
-        "AllowPairs": False, "AllowSelective": True, "AllowReopen": False,
+        "AllowPairs": False, "AllowSelective": True, "AllowReopen": False, "AllowSetLimit": False,
     }
 
 
@@ -42,6 +42,10 @@ def configs(tier):
     c2 = base_constants()
     c2.update({"LeafKinds": {"W", "CF", "CD", "MV", "RM"}, "AllowPairs": True, "MaxDo": 2, "MaxSteps": 3})
     out.append(("pairs+remove-3calls", c2, "export", None))
+    cl = base_constants()
+    cl.update({"AllowSetLimit": True, "AllowSelective": False, "Limits": {1, 2, 100}, "MaxDo": 4, "MaxSteps": 5,
+               "LeafKinds": {"W", "CF"}})
+    out.append(("limit-changes-5calls", cl, "export", None))
     c3 = base_constants()
     c3.update({"MaxDo": 3, "MaxSteps": 40, "Limits": {2, 100},
                "InitTreesH": tlc.Sub("MCInitTreesH1" if tier == "quick" else "MCInitTreesH")})
@@ -119,6 +123,10 @@ def replay_history(beh, persist):
                         hist.redo(change=hist.redo_list[i - 1])
                 elif act == "clear":
                     hist.clear()
+                elif act == "setlimit":
+                    project.set("max_history_items", arg["i"])
+                elif act == "sync":
+                    project.sync() if n % 2 else project.close()   # both save and leave the object usable
                 elif act == "reopen":
                     # C12: close, open a new Project on the same directory; the lists must come back
                     # in the same order with the same descriptions and contents
@@ -288,7 +296,13 @@ def main(tier):
         cfg = os.path.join(common.SCRATCH_BASE, "c11_%d.cfg" % os.getpid())
         got = []
 
-        def on_beh(tag, v, got=got):
+        def on_beh(tag, v, got=got, name=name):
+            # the 5-call exhaustive export has > 500 k behaviours: a seeded third of them is replayed
+            # (TLC still checks every state); everything else is replayed completely
+            if name == "exhaustive-5calls" and (len(got) + common.SEED) % 3:
+                on_beh.skipped = getattr(on_beh, "skipped", 0) + 1
+                got.append(None)
+                return
             got.append(v)
 
         if mode == "export":
@@ -317,11 +331,14 @@ def main(tier):
             total_states += res.distinct
             total_trans += res.generated
         for b in got:
+            if b is None:
+                continue
             d = common.digest(b)
             if d not in seen:
                 seen.add(d)
                 behs.append(b)
-    behs.sort(key=lambda b: json.dumps(b, sort_keys=True))
+        del got
+    behs.sort(key=lambda b: common.digest(b))
     if tier == "quick" and len(behs) > 60000:
         rnd = common.rng("c11")
         rnd.shuffle(behs)
